@@ -138,7 +138,7 @@ def oracle(ctx, fams, quick):
 OPENERS = [("[![", "](u)](u)"), ("[a ![b ", "](u)](v)"), ("*", "*"), ("**", "**"), ("_", "_"), ("[", "](u)"), ("![", "](u)"), ("<a>", "</a>"), ("[</a>", "](u)"), ("`", "`"), ("~~", "~~"),
            ("==", "=="), ("^", "^"), ("[^", "]"), ("<b>", "</b>"), ("*_", "_*"), ("***", "***"), ("[*", "*](u)"), ("<", ">"), ("\\", ""), ("&", ";"), ("$", "$"), (">!", "!<"), ("[", "]"), ("(", ")"),
            ("[</a>", "]"), ("<a ", ">"), ("[a](", ")"), ("*[", "]"), ("{", "}")]
-PAYLOADS = ["x", "*a ", "_a ", "`", "[", "<a>", "a ", "\\", "&", "![", "~~a ", "](", "<", "\n"]
+PAYLOADS = ["x", "*a ", "_a ", "`", "[", "<a>", "a ", "\\", "&", "![", "~~a ", "](", "<", "\n", "<?", "<!--", "`a", "<a ", "http://a.b ", "<x@y.z ", "&#", "[^"]
 LINE_UNITS = [".. toc::\n", "```{toc}\n```\n", "[^1]: n\n", "*[A]: t\n", "[x]: u\n", "# h\n", "| a |\n", ": d\n", "term\n", "- [ ] k\n", ".. note:: t\n", "> q\n", "- i\n", "[^1] ", "A ", "[x] "]
 MIDS = ["", "x", "\n", "\n# ", " ", "\n\n"]
 
@@ -227,6 +227,39 @@ def count_oracle(ctx, quick):
             elif all(isinstance(t, float) for t in ts) and ts[2] > 1.0 and ts[2] > 20 * max(ts[1], 1e-4):
                 ctx.fail("time:exponential:%s" % rc["renderer"], "family %r with the %s renderer: CPU time %s for n = %s" % (f, rc["renderer"], [round(t, 4) for t in ts], rsizes), rep)
         tasks += rtasks
+    # three runs growing together, by time: work inside one handler call (candidate loops, re-scans) does not show in call counts
+    tfams = [(o, pay, c) for o, c in OPENERS for pay in PAYLOADS if pay not in MIDS]
+    tsizes = [100, 200, 400]
+    ttasks = [(cfg, build3(f, n), 25.0) for f in tfams for n in tsizes]
+    tres = worker.run_all(ttasks, workers=14)
+    suspects = []
+    for i, f in enumerate(tfams):
+        rs = tres[i * 3:(i + 1) * 3]
+        ts = [r.get("cpu") if r["status"] == "ok" else r["status"] for r in rs]
+        if "timeout" in ts:
+            suspects.append(f)
+        elif all(isinstance(t, float) for t in ts) and ts[2] > 0.4 and ts[2] > 5.5 * max(ts[1], 1e-3):
+            suspects.append(f)
+    for f in suspects[:8]:
+        alone = {}
+        for n in [100, 200, 400, 800]:
+            r = worker.run_all([(cfg, build3(f, n), 60.0)], workers=1)[0]
+            alone[n] = r["cpu"] if r["status"] == "ok" else r["status"]
+            if r["status"] != "ok":
+                break
+        rep = {"prefix": "", "unit": "", "suffix": "", "family3": list(f), "config": cfg, "cpu_s": {str(k): v for k, v in alone.items()}, "doc_n12": build3(f, 12)}
+        pts = [(n, v) for n, v in alone.items() if isinstance(v, float)]
+        if "timeout" in alone.values():
+            k = [n for n, v in alone.items() if v == "timeout"][0]
+            ctx.fail("time:timeout", "three-run family %r does not convert within 60 s at n=%d (%d characters) under %s" % (f, k, len(build3(f, k)), cfg["name"]), rep)
+        elif len(pts) >= 4:
+            big = [(n, v) for n, v in pts if v > 0.02] or pts
+            if len(big) >= 3:
+                sl = slope([n for n, _ in big], [v for _, v in big])
+                if sl > 2.5 and big[-1][1] > 1.0:
+                    ctx.fail("time:superquadratic", "three-run family %r: CPU time grows with exponent %.2f (%s) under %s" % (f, sl, {n: round(v, 3) for n, v in pts}, cfg["name"]), rep)
+    tasks += ttasks
+    ctx.cov["timed_three_run_families"] = len(tfams)
     ctx.cov["count_families"] = len(fams)
     ctx.cov["worst_handler_growth_per_doubling"] = round(worst, 2)
     return len(tasks)
